@@ -44,6 +44,16 @@ fn catalogue<B: Backend>(rng: &mut Prng, out: &mut Vec<Item>) {
     push("key.secret", sk.expose_key().to_string());
     push("key.pkepublic", ppk.expose_key().to_string());
     push("key.pkesecret", psk.expose_key().to_string());
+    if B::VER == 1 {
+        // RSA keys may also be given as PEM text inside the PASERK: the kind (signing vs key-sealing) is then still decided by
+        // the modulus size alone
+        for (kind, file) in [("key.public", "rsa2048-0.pub"), ("key.secret", "rsa2048-0.sec"), ("key.pkepublic", "rsa4096-0.pub"), ("key.pkesecret", "rsa4096-0.sec")] {
+            if let Ok(pem) = std::fs::read(format!("{}/fixtures/{file}.pem", env!("CARGO_MANIFEST_DIR"))) {
+                let label = if kind.ends_with("public") { "public" } else { "secret" };
+                push(kind, format!("k1.{label}.{}", crate::b64::enc(&pem)));
+            }
+        }
+    }
     push("id.lid", lk.id().to_string());
     push("id.pid", pk.id().to_string());
     push("id.sid", sk.id().to_string());
